@@ -270,6 +270,12 @@ func cmpTime(a, b time.Time) int {
 // valEqualsDest reports deep equality between a destination value and the Go
 // value of a parameter Val converted to the destination's type.
 func valEqualsDest(v reflect.Value, arg Val) bool {
+	if v.Kind() == reflect.Pointer { // deep equality looks through pointers
+		if v.IsNil() {
+			return false
+		}
+		return valEqualsDest(v.Elem(), arg)
+	}
 	a := reflect.ValueOf(arg.Go())
 	if !a.IsValid() {
 		return false
